@@ -67,10 +67,10 @@ def _strategy(dll):
     def collide3(b, sess, n1, n2, g, ab, tail):
         return [{"op": "inbound", "peer": b, "kind": "rts", "n": n1, "session": sess, "stop_after": 0, "gap": 0.0, "abort_at": ab},
                 {"op": "send", "peer": b, "kind": "rts", "n": n2, "fate": {"f": "clean", "k": 0}, "gap": g, "chain": False}] + tail
-    pattern3 = st.builds(collide3, st.integers(0, 2), st.sampled_from([0, 0, 1, 7]) if fd else st.just(0), size, size,
-                         st.sampled_from([0.0, 0.001, 0.01, 0.02]), st.sampled_from([0.005, 0.015, 0.03, 0.05]),
+    pattern3 = st.builds(collide3, st.integers(0, 2), st.sampled_from([0, 0, 0, 1]) if fd else st.just(0), size, size,
+                         st.sampled_from([0.0, 0.0, 0.001, 0.01, 0.02]), st.sampled_from([0.0005, 0.001, 0.002, 0.005, 0.015, 0.03, 0.05]),
                          st.lists(st.one_of(send, inbound), max_size=4))
-    ops = st.one_of(rnd, rnd, pattern, pattern2, pattern3)
+    ops = st.one_of(rnd, rnd, pattern, pattern2, pattern3, pattern3) if fd else st.one_of(rnd, rnd, pattern, pattern2, pattern3)
     # third structured shape (whole case): a transfer whose responder misses a data packet and gives up about when the stack's
     # own T3 expires, window 1, frame writes that take time - both aborts cross on the bus
     lateoff = st.sampled_from([-0.003, -0.0025, -0.002, -0.0015, -0.001, -0.0007, -0.0005, -0.0003, 0.0, 0.0003])
@@ -93,7 +93,19 @@ def _strategy(dll):
         "grants": st.lists(st.sampled_from([1, 2, 3, 255]), min_size=1, max_size=3),
         "lat": st.fixed_dictionaries({"S": st.lists(st.sampled_from([0.0002, 0.0005, 0.001, 0.0025]), min_size=1, max_size=2)}),
     })
-    return st.one_of(general, general, general, general, race)
+    # fourth structured shape (whole case): the stack waits for a slow CTS of a peer that meanwhile gives up a transfer of its own
+    own_abort = st.fixed_dictionaries({
+        "dll": st.just(dll),
+        "ops": st.builds(collide3, st.integers(0, 2), st.sampled_from([0, 0, 0, 1]) if fd else st.just(0), size, size,
+                         st.sampled_from([0.0, 0.001, 0.003]), st.sampled_from([0.006, 0.01, 0.015]),
+                         st.lists(st.one_of(send, inbound), max_size=3)),
+        "reply_lat": st.sampled_from([[0.02], [0.08]]),
+        "sas": st.sampled_from([[0x30, 0x90, 0x91, 0x92], [0x00, 0x90, 0x91, 0x92], [0x80, 0xF7, 0xF8, 0x01]]),
+        "tx_time": st.sampled_from([0.0, 0.0005]), "max_cmdt": st.sampled_from([1, 3, 255]),
+        "grants": st.lists(st.sampled_from([1, 2, 3, 255]), min_size=1, max_size=2),
+        "lat": st.fixed_dictionaries({"S": st.lists(st.sampled_from([0.0002, 0.0005, 0.001, 0.0025]), min_size=1, max_size=2)}),
+    })
+    return st.one_of(general, general, general, general, race, own_abort)
 
 
 class C10:
